@@ -159,7 +159,8 @@ func c16Lines(maxNodes int) []c16Line {
 		}
 	}
 	for _, l := range []string{"---@class C", "---@class C @comment", "---@class C : P", "---@class C : P, Q", "---@class C : P, Q @comment",
-		"---@generic T", "---@generic T : P", "---@generic T : P, K", "---@generic T, K : Q", "---@overload fun(p: string): People", "---@overload fun()",
+		"---@generic T", "---@generic T : P", "---@generic T : P, K", "---@generic T, K : Q", "---@generic K, T : Q @comment", "---@generic K : P, T : Q", "---@generic A, B, C : P",
+		"---@overload fun(p: string): People", "---@overload fun()",
 		"---@enum start", "---@enum end", "---@enum start @comment"} {
 		out = append(out, c16Line{l, "other", nil})
 	}
@@ -223,6 +224,32 @@ func c16PureSpace(maxNodes int) *core.Space {
 				return
 			}
 			if len(l.types) == 0 {
+				// class / generic lines: the names must be paired with the parents written behind them
+				if want, ok := c16NamesAndParents(l.text); ok {
+					got := "(another statement)"
+					switch x := fr.Stats[0].(type) {
+					case *annotateast.AnnotateClassState:
+						got = x.Name + ":" + strings.Join(x.ParentNameList, "+")
+					case *annotateast.AnnotateGenericState:
+						var ps []string
+						for k, n := range x.NameList {
+							par := "(no entry)"
+							if k < len(x.ParentNameList) {
+								par = x.ParentNameList[k]
+							}
+							ps = append(ps, n+":"+par)
+						}
+						if len(x.ParentNameList) != len(x.NameList) {
+							ps = append(ps, fmt.Sprintf("(%d names, %d parent entries)", len(x.NameList), len(x.ParentNameList)))
+						}
+						got = strings.Join(ps, ",")
+					}
+					if got != want {
+						fail("names-paired-with-the-wrong-parents:"+l.kind, map[string]interface{}{"written": want, "understood": got})
+						return
+					}
+					r.Outcome("names-and-parents-exact")
+				}
 				r.Outcome("accepted")
 				return
 			}
@@ -397,4 +424,39 @@ func init() {
 			return []*core.Space{c16PureSpace(n), c16CorruptSpace(tier)}
 		},
 	})
+}
+
+// c16NamesAndParents reads "---@class C : P, Q" / "---@generic T : P, K" the way the documentation describes them.
+func c16NamesAndParents(line string) (string, bool) {
+	body := line
+	if k := strings.Index(body, " @"); k >= 0 {
+		body = body[:k]
+	}
+	switch {
+	case strings.HasPrefix(body, "---@class "):
+		body = strings.TrimPrefix(body, "---@class ")
+		name, parents := body, ""
+		if k := strings.Index(body, ":"); k >= 0 {
+			name, parents = body[:k], body[k+1:]
+		}
+		var ps []string
+		for _, p := range strings.Split(parents, ",") {
+			if p = strings.TrimSpace(p); p != "" {
+				ps = append(ps, p)
+			}
+		}
+		return strings.TrimSpace(name) + ":" + strings.Join(ps, "+"), true
+	case strings.HasPrefix(body, "---@generic "):
+		body = strings.TrimPrefix(body, "---@generic ")
+		var out []string
+		for _, item := range strings.Split(body, ",") {
+			name, par := item, ""
+			if k := strings.Index(item, ":"); k >= 0 {
+				name, par = item[:k], item[k+1:]
+			}
+			out = append(out, strings.TrimSpace(name)+":"+strings.TrimSpace(par))
+		}
+		return strings.Join(out, ","), true
+	}
+	return "", false
 }
